@@ -489,4 +489,382 @@ theorem mem_take_mono {α : Type} {l : List α} {x : α} {i : Nat} (k : Nat) (h 
   rw [this] at h
   exact List.mem_of_mem_take h
 
+/-! ### Blacklist -/
+
+theorem validCount_perm {l l' : List RV} (p : l.Perm l') : validCount l = validCount l' := by
+  unfold validCount
+  exact (p.filter _).length_eq
+
+theorem validCount_updateFirst_bl (p : RV → Bool) :
+    ∀ l : List RV, validCount l ≤ validCount (updateFirst p (fun rv => { rv with bl := true }) l) + 1
+  | [] => by simp [updateFirst, validCount]
+  | x :: xs => by
+    have ih := validCount_updateFirst_bl p xs
+    unfold updateFirst
+    split
+    · simp only [validCount, List.filter_cons] at *
+      split <;> split <;> simp_all <;> omega
+    · simp only [validCount, List.filter_cons] at *
+      split <;> simp_all <;> omega
+
+/-- number of versions that are not blacklisted (dev versions included) -/
+def nonBl (vs : List RV) : Nat := (vs.filter (fun rv => !rv.bl)).length
+
+theorem validCount_le_nonBl : ∀ l : List RV, validCount l ≤ nonBl l
+  | [] => by simp [validCount, nonBl]
+  | x :: xs => by
+    have ih := validCount_le_nonBl xs
+    simp only [validCount, nonBl, List.filter_cons] at *
+    split <;> split <;> simp_all <;> omega
+
+theorem blacklist_ok_shape {fl : Flags} {r : Res} {version : Str} (hok : (r.blacklist fl version).2 = none) :
+    r.versions.any (fun rv => rv.ver.str == version) = true ∧
+    (r.blacklist fl version).1 = Res.selectVersion fl { r with
+      versions := updateFirst (fun rv => rv.ver.str == version) (fun rv => { rv with bl := true }) r.versions } := by
+  unfold Res.blacklist at hok ⊢
+  split at hok
+  · simp at hok
+  · split at hok
+    · rename_i h1 h2
+      simp only [if_neg h1, if_pos h2]
+      exact ⟨h2, trivial⟩
+    · simp at hok
+
+theorem updateFirst_bl_mem {version : Str} : ∀ l : List RV, l.any (fun rv => rv.ver.str == version) = true →
+    ∃ rv ∈ updateFirst (fun rv => rv.ver.str == version) (fun rv => { rv with bl := true }) l,
+      rv.bl = true ∧ rv.ver.str = version
+  | [], h => by simp at h
+  | a :: t, h => by
+    unfold updateFirst
+    split
+    · rename_i ha
+      exact ⟨{ a with bl := true }, by simp, rfl, by simpa using ha⟩
+    · rename_i ha
+      have : t.any (fun rv => rv.ver.str == version) = true := by
+        simp only [List.any_cons, Bool.or_eq_true] at h
+        rcases h with h | h
+        · exact absurd h ha
+        · exact h
+      obtain ⟨rv, hrv, h1, h2⟩ := updateFirst_bl_mem t this
+      exact ⟨rv, by simp [hrv], h1, h2⟩
+
+/-! ### updateFirst, diskAdd -/
+
+theorem updateFirst_map_ver {p : RV → Bool} {f : RV → RV} (hf : ∀ x, (f x).ver = x.ver) :
+    ∀ l : List RV, (updateFirst p f l).map (·.ver) = l.map (·.ver)
+  | [] => rfl
+  | x :: xs => by
+    unfold updateFirst
+    split
+    · simp [hf]
+    · simp [updateFirst_map_ver hf xs]
+
+theorem mem_updateFirst {p : RV → Bool} {f : RV → RV} {x : RV} :
+    ∀ {l : List RV}, x ∈ updateFirst p f l → x ∈ l ∨ ∃ y ∈ l, p y = true ∧ x = f y
+  | [], h => by simp [updateFirst] at h
+  | a :: as, h => by
+    unfold updateFirst at h
+    split at h
+    · rename_i hp
+      rcases List.mem_cons.mp h with rfl | h
+      · exact Or.inr ⟨a, by simp, hp, rfl⟩
+      · exact Or.inl (by simp [h])
+    · rcases List.mem_cons.mp h with rfl | h
+      · exact Or.inl (by simp)
+      · rcases mem_updateFirst h with h | ⟨y, hy, hpy, hxy⟩
+        · exact Or.inl (by simp [h])
+        · exact Or.inr ⟨y, by simp [hy], hpy, hxy⟩
+
+theorem verNodup_iff_map {l : List RV} : VerNodup l ↔ (l.map (·.ver)).Pairwise (· ≠ ·) := by
+  unfold VerNodup
+  rw [List.pairwise_map]
+
+theorem verNodup_of_map_eq {l l' : List RV} (h : l'.map (·.ver) = l.map (·.ver)) (hn : VerNodup l) : VerNodup l' := by
+  rw [verNodup_iff_map] at *
+  rwa [h]
+
+theorem mem_diskAdd {k x : FileKey} {d : List FileKey} : x ∈ diskAdd k d ↔ x = k ∨ x ∈ d := by
+  unfold diskAdd
+  split
+  · rename_i h
+    have : k ∈ d := by simpa using h
+    constructor
+    · exact Or.inr
+    · rintro (rfl | h) <;> assumption
+  · simp [or_comm]
+
+/-! ### Invariant of all histories -/
+
+/-- version numbers are a key of the list; the selected and the active version are listed; every version
+    listed as available has its file on disk -/
+def ResInv (r : Res) : Prop :=
+  VerNodup r.versions ∧
+  (∀ v, r.selected = some v → ∃ rv ∈ r.versions, rv.ver = v) ∧
+  (∀ v, r.active = some v → ∃ rv ∈ r.versions, rv.ver = v) ∧
+  ListingSound r
+
+def StInv (s : St) : Prop := ∀ p ∈ s.res, ResInv p.2
+
+theorem resInv_empty : ResInv {} := by
+  refine ⟨List.Pairwise.nil, ?_, ?_, ?_⟩ <;> intro _ h <;> simp at h
+
+theorem selectVersion_inv {fl : Flags} {r : Res} (h : ResInv r) : ResInv (r.selectVersion fl) := by
+  obtain ⟨hn, _, hA, hL⟩ := h
+  refine ⟨verNodup_sortDesc hn, ?_, ?_, ?_⟩
+  · intro v hv
+    simp only [Res.selectVersion, Option.map_eq_some_iff] at hv
+    obtain ⟨rv, hrv, rfl⟩ := hv
+    exact ⟨rv, selectFrom_mem hrv, rfl⟩
+  · intro v hv
+    obtain ⟨rv, hrv, hrvv⟩ := hA v hv
+    exact ⟨rv, mem_sortDesc.mpr hrv, hrvv⟩
+  · intro rv hrv ha
+    exact hL rv (mem_sortDesc.mp hrv) ha
+
+theorem addVersion_inv {r : Res} {raw : Str} {avail cur pre : Bool} {idx : Option Bool} (h : ResInv r) :
+    ResInv (r.addVersion raw avail cur pre idx).1 := by
+  obtain ⟨hn, hS, hA, hL⟩ := h
+  -- the list after the reset of the current-release flags
+  have hvs1 : ∀ (vs1 : List RV), vs1 = (if cur then r.versions.map (fun rv => { rv with cur := false }) else r.versions) →
+      vs1.map (·.ver) = r.versions.map (·.ver) ∧ ∀ e ∈ vs1, ∃ o ∈ r.versions, e.ver = o.ver ∧ e.avail = o.avail := by
+    intro vs1 hv
+    subst hv
+    split
+    · refine ⟨by simp [Function.comp_def], ?_⟩
+      intro e he
+      obtain ⟨o, ho, rfl⟩ := List.mem_map.mp he
+      exact ⟨o, ho, rfl, rfl⟩
+    · exact ⟨rfl, fun e he => ⟨e, he, rfl, rfl⟩⟩
+  unfold Res.addVersion
+  simp only []
+  generalize hg : (if cur then r.versions.map (fun rv => { rv with cur := false }) else r.versions) = vs1
+  obtain ⟨hm1, he1⟩ := hvs1 vs1 hg.symm
+  have hn1 : VerNodup vs1 := verNodup_of_map_eq hm1 hn
+  have mem1 : ∀ v, (∃ rv ∈ r.versions, rv.ver = v) → ∃ rv ∈ vs1, rv.ver = v := by
+    intro v ⟨rv, hrv, hv⟩
+    have : v ∈ vs1.map (·.ver) := by rw [hm1]; exact List.mem_map.mpr ⟨rv, hrv, hv⟩
+    obtain ⟨e, he, hev⟩ := List.mem_map.mp this
+    exact ⟨e, he, hev⟩
+  split
+  · -- malformed version: only the flags were reset and the index re-pointed
+    refine ⟨hn1, fun v hv => mem1 v (hS v hv), fun v hv => mem1 v (hA v hv), ?_⟩
+    intro e he ha
+    obtain ⟨o, ho, hov, hoa⟩ := he1 e he
+    simp only [] at *
+    rw [hov]; exact hL o ho (hoa ▸ ha)
+  · rename_i v hparse
+    generalize hg2 : (if vs1.any (fun rv => rv.ver == v) then vs1 else vs1 ++ [{ ver := v }]) = vs2
+    have hn2 : VerNodup vs2 := by
+      subst hg2
+      split
+      · exact hn1
+      · rename_i hany
+        rw [VerNodup, List.pairwise_append]
+        refine ⟨hn1, List.pairwise_singleton _ _, ?_⟩
+        intro a ha b hb
+        have hb : b = { ver := v } := by simpa using hb
+        subst hb
+        intro hav
+        apply hany
+        exact List.any_eq_true.mpr ⟨a, ha, by simpa using hav⟩
+    have he2 : ∀ e ∈ vs2, e ∈ vs1 ∨ e = { ver := v } := by
+      subst hg2
+      intro e he
+      split at he
+      · exact Or.inl he
+      · rcases List.mem_append.mp he with h | h
+        · exact Or.inl h
+        · exact Or.inr (by simpa using h)
+    have sub2 : ∀ e ∈ vs1, e ∈ vs2 := by
+      subst hg2
+      intro e he
+      split
+      · exact he
+      · exact List.mem_append_left _ he
+    have hm3 := updateFirst_map_ver (p := fun rv => rv.ver == v)
+      (f := fun rv => { rv with avail := rv.avail || avail, cur := rv.cur || cur, pre := rv.pre || pre || !v.pre.isEmpty })
+      (fun _ => rfl) vs2
+    have mem3 : ∀ w, (∃ rv ∈ vs1, rv.ver = w) → ∃ rv ∈ updateFirst (fun rv => rv.ver == v)
+        (fun rv => { rv with avail := rv.avail || avail, cur := rv.cur || cur, pre := rv.pre || pre || !v.pre.isEmpty }) vs2, rv.ver = w := by
+      intro w ⟨rv, hrv, hw⟩
+      have : w ∈ (updateFirst (fun rv => rv.ver == v)
+        (fun rv => { rv with avail := rv.avail || avail, cur := rv.cur || cur, pre := rv.pre || pre || !v.pre.isEmpty }) vs2).map (·.ver) := by
+        rw [hm3]; exact List.mem_map.mpr ⟨rv, sub2 rv hrv, hw⟩
+      obtain ⟨e, he, hev⟩ := List.mem_map.mp this
+      exact ⟨e, he, hev⟩
+    refine ⟨verNodup_of_map_eq hm3 hn2, fun w hw => mem3 w (mem1 w (hS w hw)), fun w hw => mem3 w (mem1 w (hA w hw)), ?_⟩
+    intro e he ha
+    simp only [] at he ha ⊢
+    have old : ∀ x ∈ vs2, x.avail = true → (x.ver, 0) ∈ r.disk := by
+      intro x hx hxa
+      rcases he2 x hx with h | h
+      · obtain ⟨o, ho, hov, hoa⟩ := he1 x h
+        rw [hov]; exact hL o ho (hoa ▸ hxa)
+      · subst h; simp at hxa
+    have goal : (e.ver, 0) ∈ r.disk ∨ (avail = true ∧ e.ver = v) := by
+      rcases mem_updateFirst he with h | ⟨y, hy, hpy, rfl⟩
+      · exact Or.inl (old e h ha)
+      · simp only [Bool.or_eq_true] at ha
+        have hyv : y.ver = v := by simpa using hpy
+        rcases ha with h | h
+        · exact Or.inl (old y hy h)
+        · exact Or.inr ⟨h, hyv⟩
+    rcases goal with h | ⟨h1, h2⟩
+    · split
+      · exact mem_diskAdd.mpr (Or.inr h)
+      · exact h
+    · simp only [h1, if_true]
+      exact mem_diskAdd.mpr (Or.inl (by rw [h2]))
+
+theorem blacklist_inv {fl : Flags} {r : Res} {version : Str} (h : ResInv r) : ResInv (r.blacklist fl version).1 := by
+  unfold Res.blacklist
+  split
+  · exact h
+  · split
+    · apply selectVersion_inv
+      obtain ⟨hn, hS, hA, hL⟩ := h
+      have hm := updateFirst_map_ver (p := fun rv => rv.ver.str == version) (f := fun rv => { rv with bl := true })
+        (fun _ => rfl) r.versions
+      have mem : ∀ w, (∃ rv ∈ r.versions, rv.ver = w) → ∃ rv ∈ updateFirst (fun rv => rv.ver.str == version)
+          (fun rv => { rv with bl := true }) r.versions, rv.ver = w := by
+        intro w ⟨rv, hrv, hw⟩
+        have : w ∈ (updateFirst (fun rv => rv.ver.str == version) (fun rv => { rv with bl := true }) r.versions).map (·.ver) := by
+          rw [hm]; exact List.mem_map.mpr ⟨rv, hrv, hw⟩
+        obtain ⟨e, he, hev⟩ := List.mem_map.mp this
+        exact ⟨e, he, hev⟩
+      refine ⟨verNodup_of_map_eq hm hn, fun w hw => mem w (hS w hw), fun w hw => mem w (hA w hw), ?_⟩
+      intro e he ha
+      rcases mem_updateFirst he with h | ⟨y, hy, _, rfl⟩
+      · exact hL e h ha
+      · exact hL y hy ha
+    · exact h
+
+theorem purge_inv {r : Res} {keep : Int} (h : ResInv r) : ResInv (r.purge keep) := by
+  obtain ⟨hn, hS, hA, hL⟩ := h
+  rcases purge_shape r keep with ⟨l', hp, he⟩ | ⟨i, hi, hlt, he⟩
+  · rw [he]
+    refine ⟨hn.perm hp.symm, ?_, ?_, ?_⟩
+    · intro v hv; obtain ⟨rv, hrv, hrvv⟩ := hS v hv; exact ⟨rv, hp.mem_iff.mpr hrv, hrvv⟩
+    · intro v hv; obtain ⟨rv, hrv, hrvv⟩ := hA v hv; exact ⟨rv, hp.mem_iff.mpr hrv, hrvv⟩
+    · intro rv hrv ha; exact hL rv (hp.mem_iff.mp hrv) ha
+  · rw [he]
+    have hns := verNodup_sortDesc hn
+    refine ⟨?_, ?_, ?_, ?_⟩
+    · have := hns
+      rw [VerNodup, ← List.take_append_drop (i + keepOf keep) (sortDesc r.versions)] at this
+      exact (List.pairwise_append.mp this).1
+    · intro v hv
+      obtain ⟨rv, hrv, hrvv⟩ := hS v hv
+      exact ⟨rv, mem_take_mono _ (required_before_boundary hn hi (Or.inr (Or.inl hv)) (mem_sortDesc.mpr hrv) hrvv), hrvv⟩
+    · intro v hv
+      obtain ⟨rv, hrv, hrvv⟩ := hA v hv
+      exact ⟨rv, mem_take_mono _ (required_before_boundary hn hi (Or.inl hv) (mem_sortDesc.mpr hrv) hrvv), hrvv⟩
+    · intro rv hrv ha
+      refine mem_purge_disk.mpr ⟨hL rv (mem_sortDesc.mp (List.mem_of_mem_take hrv)) ha, ?_⟩
+      intro g hg _ hgv
+      exact verNodup_cut hns _ hrv hg hgv.symm
+
+theorem getFile_inv {fl : Flags} {id : Str} {r : Res} (h : ResInv r) : ResInv (r.getFile fl id).1 := by
+  unfold Res.getFile
+  simp only []
+  generalize hg : (if r.selected.isNone then r.selectVersion fl else r) = r1
+  have h1 : ResInv r1 := by
+    subst hg
+    split
+    · exact selectVersion_inv h
+    · exact h
+  split
+  · exact h1
+  · rename_i v hv
+    split
+    · exact h1
+    · rename_i rv hrv
+      have hmem := List.mem_of_find?_eq_some hrv
+      have hver : rv.ver = v := by have := List.find?_some hrv; simpa using this
+      obtain ⟨hn, hS, hA, hL⟩ := h1
+      split
+      · exact ⟨hn, hS, fun w hw => by cases hw; exact ⟨rv, hmem, hver⟩, hL⟩
+      · split
+        · exact ⟨hn, hS, hA, hL⟩
+        · refine ⟨hn, hS, fun w hw => by cases hw; exact ⟨rv, hmem, hver⟩, ?_⟩
+          intro e he ha
+          exact mem_diskAdd.mpr (Or.inr (hL e he ha))
+
+theorem diskAdd_inv {r : Res} {k : FileKey} (h : ResInv r) : ResInv { r with disk := diskAdd k r.disk } := by
+  obtain ⟨hn, hS, hA, hL⟩ := h
+  exact ⟨hn, hS, hA, fun e he ha => mem_diskAdd.mpr (Or.inr (hL e he ha))⟩
+
+theorem St.get_mem {s : St} {id : Str} {r : Res} (h : s.get id = some r) : ∃ p ∈ s.res, p.2 = r := by
+  unfold St.get at h
+  obtain ⟨p, hp, rfl⟩ := Option.map_eq_some_iff.mp h
+  exact ⟨p, List.mem_of_find?_eq_some hp, rfl⟩
+
+theorem St.set_inv {s : St} {id : Str} {r : Res} (hs : StInv s) (hr : ResInv r) : StInv (s.set id r) := by
+  unfold St.set
+  split
+  · intro p hp
+    obtain ⟨q, hq, rfl⟩ := List.mem_map.mp hp
+    split
+    · exact hr
+    · exact hs q hq
+  · intro p hp
+    rcases List.mem_append.mp hp with h | h
+    · exact hs p h
+    · have : p = (id, r) := by simpa using h
+      subst this; exact hr
+
+theorem St.mapRes_inv {s : St} {f : Res → Res} (hs : StInv s) (hf : ∀ r, ResInv r → ResInv (f r)) : StInv (s.mapRes f) := by
+  intro p hp
+  obtain ⟨q, hq, rfl⟩ := List.mem_map.mp hp
+  exact hf _ (hs q hq)
+
+theorem St.get_inv {s : St} {id : Str} (hs : StInv s) : ResInv ((s.get id).getD {}) := by
+  cases h : s.get id with
+  | none => exact resInv_empty
+  | some r => obtain ⟨p, hp, rfl⟩ := St.get_mem h; exact hs p hp
+
+theorem step_inv {s : St} (op : Op) (hs : StInv s) : StInv (step s op).1 := by
+  cases op with
+  | setFlags o d p => exact hs
+  | add id ver avail cur pre idx =>
+    simp only [step]
+    exact St.set_inv hs (addVersion_inv (St.get_inv hs))
+  | touch id ver kind =>
+    simp only [step]
+    split
+    · rename_i r v hr hv
+      split
+      · obtain ⟨p, hp, rfl⟩ := St.get_mem hr
+        exact St.set_inv hs (diskAdd_inv (hs p hp))
+      · exact hs
+    · exact hs
+  | select => exact St.mapRes_inv hs (fun r hr => selectVersion_inv hr)
+  | getFile id =>
+    simp only [step]
+    split
+    · exact hs
+    · rename_i r hr
+      obtain ⟨p, hp, rfl⟩ := St.get_mem hr
+      exact St.set_inv hs (getFile_inv (hs p hp))
+  | blacklist id ver =>
+    simp only [step]
+    split
+    · exact hs
+    · rename_i r hr
+      obtain ⟨p, hp, rfl⟩ := St.get_mem hr
+      have := blacklist_inv (fl := s.fl) (version := ver) (hs p hp)
+      split <;> (rename_i r' heq; rw [heq] at this; exact St.set_inv hs this)
+  | purge keep => exact St.mapRes_inv hs (fun r hr => purge_inv hr)
+  | selected => exact hs
+  | getVersion id =>
+    simp only [step]
+    split <;> exact hs
+
+theorem run_inv (ops : List Op) : ∀ s, StInv s → StInv (run s ops) := by
+  induction ops with
+  | nil => intro s hs; exact hs
+  | cons op ops ih => intro s hs; exact ih _ (step_inv op hs)
+
+theorem stInv_init : StInv {} := by intro p hp; simp at hp
+
 end PB.Updater
